@@ -120,7 +120,8 @@ pub fn gen(rng: &mut Rng, size: usize) -> Value {
                 _ => "var é = '𝒳'; // code",
             });
             if f.ends_with('=') {
-                f.push_str(*rng.pick(&["", "a.js.map", "  spaced.map \t", "http://h/p?q=1#f", "\u{a0}nbsp.map\u{2028}", "data:application/json;base64,e30="]));
+                f.push_str(*rng.pick(&["", "a.js.map", "  spaced.map \t", "http://h/p?q=1#f", "\u{a0}nbsp.map\u{2028}", "data:application/json;base64,e30=",
+                                        " my bundle.min.js.map ", "a\tb.map", "x \u{a0} y.map", "two  spaces.map"]));
             }
             if k + 1 < n || rng.chance(1, 2) { f.push_str(*rng.pick(&["\n", "\r\n", "\n", "\r"])); }
         }
